@@ -969,6 +969,9 @@ fn isect_and_select(s: &mut Session, rng: &mut Rng, sc: &Scenario, ndefs: usize,
                             _ => false,
                         });
                         s.oracle("format1-offer-excludes-applied-and-entry0", ok, input, || format!("offered={shown} bitmap={}", hex(&t.bitmap)));
+                        // application bit of entry k = bit k of the applied-entries bitmap, which starts at byte 36 of the table
+                        let ok_bits = v.iter().filter(|(u, _)| u.is_iftx == iftx).all(|(u, _)| match u.id { PatchId::Numeric(ix) => u.application_flag_bit_index == 36 * 8 + ix as usize, _ => false });
+                        s.oracle("format1-application-bit-is-the-bitmap-bit", ok_bits, input, || format!("offered={shown}"));
                         // glyph-map part of the offer, straight from the specification: entry index of every
                         // glyph a requested codepoint maps to, if it is <= max_glyph_map_entry_index; the
                         // feature map can only add entries above that index
@@ -1263,6 +1266,10 @@ fn bytes_cases(s: &mut Session, rng: &mut Rng, n: usize) {
     }
 }
 
+fn entries_offset_of(table: &[u8]) -> usize {
+    u32::from_be_bytes([table[25], table[26], table[27], table[28]]) as usize
+}
+
 fn decode_cases(s: &mut Session, rng: &mut Rng, n: usize) {
     for _ in 0..n {
         let which = rng.below(2) as u8;
@@ -1299,6 +1306,11 @@ fn decode_cases(s: &mut Session, rng: &mut Rng, n: usize) {
                 let wf: BTreeSet<Tag> = if r.flags & 1 != 0 { r.feats.iter().copied().collect() } else { BTreeSet::new() };
                 if e.subset_definition.feature_tags != FeatureSet::Set(wf) { bad.push(format!("entry {i}: features")); }
                 if e.ignored != (r.flags & 0x40 != 0) { bad.push(format!("entry {i}: ignored flag")); }
+                // application bit = bit 6 of the entry's own format-flags byte (entries offset + sizes of the entries before it)
+                let start: usize = entries_offset_of(&t.bytes) + spec.raws[..i].iter().map(|x| x.encode(spec.id_strings.is_some()).len()).sum::<usize>();
+                if e.uri.application_flag_bit_index != start * 8 + 6 || t.bytes.get(start) != Some(&r.flags) {
+                    bad.push(format!("entry {i}: application bit {} but its flags byte is byte {start} of the table", e.uri.application_flag_bit_index));
+                }
                 let wc: Vec<usize> = if r.flags & 2 != 0 { r.children.iter().map(|c| *c as usize).collect() } else { vec![] };
                 if e.child_indices != wc { bad.push(format!("entry {i}: children")); }
                 if e.conjunctive_child_match != (r.flags & 2 != 0 && r.child_byte & 0x80 != 0) { bad.push(format!("entry {i}: conjunctive flag")); }
@@ -1334,6 +1346,42 @@ fn real_uri(rng: &mut Rng, template: &[u8], id: &PatchId) -> Result<Result<Strin
     })
 }
 
+/// IFT uri template expansion written straight from the specification, for templates made of
+/// `{id}` `{id64}` `{d1}`..`{d4}` and literals that are copied verbatim (independent of uri_templates.rs
+/// and of the Lean model): id bytes = big-endian u32 without leading zero bytes / the id string;
+/// {id} = base32hex without padding; {id64} = base64url with '=' padding, percent-encoded;
+/// {dN} = N-th character of {id} counted from the end, '_' if there is none.
+fn reference_expand(template: &[u8], id: &PatchId) -> Option<String> {
+    let bytes: Vec<u8> = match id {
+        PatchId::Numeric(n) => { let b = n.to_be_bytes(); let skip = b.iter().take_while(|x| **x == 0).count().min(3); b[skip..].to_vec() }
+        PatchId::String(b) => b.clone(),
+    };
+    let enc = |alphabet: &[u8], bits_per: usize| -> Vec<u8> {
+        let mut out = vec![]; let mut acc: u32 = 0; let mut n = 0usize;
+        for b in &bytes { acc = (acc << 8) | *b as u32; n += 8; while n >= bits_per { out.push(alphabet[((acc >> (n - bits_per)) & ((1 << bits_per) - 1)) as usize]); n -= bits_per; } }
+        if n > 0 { out.push(alphabet[((acc << (bits_per - n)) & ((1 << bits_per) - 1)) as usize]); }
+        out
+    };
+    let id32 = enc(b"0123456789ABCDEFGHIJKLMNOPQRSTUV", 5);
+    let mut id64: Vec<u8> = enc(b"ABCDEFGHIJKLMNOPQRSTUVWXYZabcdefghijklmnopqrstuvwxyz0123456789-_", 6);
+    let pads = (4 - id64.len() % 4) % 4;
+    for _ in 0..pads { id64.extend(b"%3D"); }
+    let mut out: Vec<u8> = vec![]; let mut i = 0;
+    while i < template.len() {
+        if template[i] == b'{' {
+            let end = template[i..].iter().position(|c| *c == b'}')? + i;
+            match &template[i + 1..end] {
+                b"id" => out.extend(&id32),
+                b"id64" => out.extend(&id64),
+                [b'd', n @ b'1'..=b'4'] => { let k = (*n - b'0') as usize; out.push(if id32.len() >= k { id32[id32.len() - k] } else { b'_' }); }
+                _ => return None,
+            }
+            i = end + 1;
+        } else { out.push(template[i]); i += 1; }
+    }
+    String::from_utf8(out).ok()
+}
+
 /// different entry ids => different uris whenever the template contains {id} or {id64}
 /// (model independent; includes the different-byte-length pairs the Lean theorem leaves conditional)
 fn uri_injectivity_cases(s: &mut Session, rng: &mut Rng, n: usize) {
@@ -1359,6 +1407,14 @@ fn uri_injectivity_cases(s: &mut Session, rng: &mut Rng, n: usize) {
         };
         let ua = real_uri(rng, &template, &a);
         let ub = real_uri(rng, &template, &b);
+        for (id, got) in [(&a, &ua), (&b, &ub)] {
+            if let Ok(got) = got {
+                let want = reference_expand(&template, id);
+                s.oracle("uri-equals-reference-expansion", got.as_ref().ok() == want.as_ref(),
+                    || format!("template={} id {}", hex(&template), show_id(id)),
+                    || format!("expanded to {:?}, the IFT rules give {:?}", got, want));
+            }
+        }
         if let (Ok(Ok(ua)), Ok(Ok(ub))) = (&ua, &ub) {
             let same_len = match (&a, &b) { (PatchId::String(x), PatchId::String(y)) => x.len() == y.len(),
                 (PatchId::Numeric(x), PatchId::Numeric(y)) => (32 - x.leading_zeros() + 7) / 8 == (32 - y.leading_zeros() + 7) / 8, _ => false };
